@@ -290,6 +290,18 @@ class HostExec(Exec):
           return a.what == "dtype:int"
         raise Unsupported("type_is_int")
     if isinstance(callee, FuncRef) and callee.info.kind == "host":
+      if callee.info.key in self.host_contracts:
+        # modular call: only the callee's frame contract is used (proved separately)
+        g = self.guard_now(fr)
+        self.opaque_calls.append((callee.info.key, g))
+        for path in self.host_contracts[callee.info.key]["modifies"]:
+          ref = self.resolve_path(path)
+          prev = self.st.arrs[ref.aid]
+          self.havoc_array(ref)
+          hv = self.st.arrs[ref.aid]
+          if g is not True:
+            self.st.arrs[ref.aid] = lambda idx, prev=prev, hv=hv, g=g: z3.If(g, hv(idx), prev(idx))
+        return None
       if callee.info.key in self.skip_calls or not self.inline_host:
         self.host_notes.append(f"opaque host call {callee.info.key}")
         self.opaque_calls.append((callee.info.key, self.guard_now(fr)))
@@ -297,6 +309,18 @@ class HostExec(Exec):
     return super().call(callee, args, kw, fr, e)
 
   opaque_calls: list = []
+  host_contracts: dict = {}
+
+  def resolve_path(self, path):
+    parts = path.split(".")
+    v = self.roots[parts[0]] if parts[0] in self.roots else self.root(parts[0], {"m": "Model", "d": "Data"}[parts[0]])
+    for p in parts[1:]:
+      v = self.host_attr(v, p)
+    return v
+
+  def written_arrays(self):
+    """names of arrays whose state differs (syntactically) from the initial state"""
+    return sorted(self.st.meta[aid].name for aid, f in self.st.arrs.items() if f is not self.st.arrs0.get(aid))
 
   def fill_array(self, ref, val, fr, lineno):
     g = self.guard_now(fr)
@@ -467,7 +491,7 @@ def run_host(key, args=None, specialise=None, skip_calls=(), invariants=None):
 class HostRun:
   """symbolic execution of a host function + contract helpers over the final Data/Model state"""
 
-  def __init__(self, key, args=None, skip_calls=(), invariants=None, pre=(), setup=None):
+  def __init__(self, key, args=None, skip_calls=(), invariants=None, pre=(), setup=None, host_contracts=None):
     from .contracts import Obligation
 
     self.key = key
@@ -477,6 +501,7 @@ class HostRun:
     ex.raises = []
     ex.opaque_calls = []
     ex.skip_calls = set(skip_calls)
+    ex.host_contracts = dict(host_contracts or {})
     if invariants:
       ex.invariants.update(invariants)
     self.fr = Frame(self.info)
